@@ -381,6 +381,8 @@ def run(chk):
     rule_decl_refix(chk)
     rule_forward_declaration(chk)
     rule_every_declaration_emitted(chk)
+    import c06
+    c06.rule_lang_slot_eval(chk, prefix="C04.reread")      # what the exporter writes as register(..) the front end reads back as written (slot and space)
     import c01
     c01.rule_intrinsic(chk, "C04")      # an intrinsic is exported under a name the front end declares with the same parameter lists
     import c09
